@@ -104,15 +104,23 @@ def build(shape, size, rng):
             for b in range(k):
                 pairs[(first[a], second[b])] = (B.buildValue({"XAdvance": val(a, b)}), None)
         st = B.buildPairPosClassesSubtable(pairs, gm)
+        # valid but unusual: ClassDef1 classifies glyphs that the subtable's Coverage does not list
+        # (as in subtables produced by a split that share one ClassDef1): such glyphs get no kerning here
+        uncovered = set(first[a][1] for a in range(0, k, 7))
+        st.Coverage.glyphs = [g for g in st.Coverage.glyphs if g not in uncovered]
         assemble(font, "GPOS", [B.buildLookup([st])], "kern")
 
-        def samples(r, kk=160):
+        def samples(r, kk=200):
             out = []
             for _ in range(kk):
                 a, b = r.randrange(k), r.randrange(k)
-                g1 = gm[first[a][r.randrange(2)]]
+                n1 = first[a][r.randrange(2)]
+                if r.random() < 0.3:
+                    n1 = first[(a // 7) * 7][1]
+                    a = (a // 7) * 7
+                g1 = gm[n1]
                 g2 = gm[second[b][r.randrange(2)]]
-                out.append(([g1, g2], ("adv0", ADV + val(a, b))))
+                out.append(([g1, g2], ("adv0", ADV if n1 in uncovered else ADV + val(a, b))))
             return out
 
         return font, samples
